@@ -47,6 +47,7 @@ def dispatch (f : List String) : String :=
   | some "RUN" => Garnish.Driver.runCase f
   | some "PROG" => Garnish.Driver.progCase f
   | some "MULTI" => Garnish.Driver.multiCase f
+  | some "WFCHK" => Garnish.Driver.wfCase f
   | _ => "UNKNOWN-SUITE"
 
 partial def loop (h : IO.FS.Stream) (out : IO.FS.Stream) : IO Unit := do
